@@ -435,30 +435,22 @@ class TableWorld(World):
 
     def construct(self, eng, st, cls, args, kwargs, node):
         if cls.name == 'Table':
-            # Table(...) : assumed contract of the constructor for scipy-matrix input
-            self.used.add('Table.__init__')
+            # Table(...): a new object initialised by Table.__init__, whose contract (proved for scipy-matrix input,
+            # see the end of this file) is what callers get
             data = args[0]
             if not (data.kind == 'ref' and isinstance(st.node(data), Obj) and st.node(data).cls == 'SP'):
                 raise EngineError('%s:%d: Table(...) with non-scipy data is outside the Tier-A model' % (eng.rel, node.lineno))
-            names = ['data', 'observation_ids', 'sample_ids', 'observation_metadata', 'sample_metadata', 'table_id', 'type']
-            bound = dict(zip(names, args))
-            bound.update(kwargs)
             st = st.copy()
-            dn = st.node(data)
-            # data.tocsr().astype(float): fresh, csr, same cells; sorted unless it was an unsorted csr already
-            was_csr = dn.fields['fmt'].term == smt.str_lit('csr')
-            new_data = self.sp_clone(st, dn, fmt=VStr('csr'), dtype=VStr('float64'),
-                                     sorted=VBool(z3.If(was_csr, dn.fields['sorted'].term, z3.BoolVal(True))))
-            oidx = st.alloc(Dict('str', 'int', fresh('oidx_dom', z3.ArraySort(Str, B)), fresh('oidx_val', z3.ArraySort(Str, I))))
-            sidx = st.alloc(Dict('str', 'int', fresh('sidx_dom', z3.ArraySort(Str, B)), fresh('sidx_val', z3.ArraySort(Str, I))))
-            f = {'_data': new_data,
-                 '_observation_ids': bound['observation_ids'], '_sample_ids': bound['sample_ids'],
-                 '_observation_metadata': bound.get('observation_metadata', NONE),
-                 '_sample_metadata': bound.get('sample_metadata', NONE),
-                 '_obs_index': oidx, '_sample_index': sidx,
-                 'table_id': bound.get('table_id', NONE), 'type': bound.get('type', NONE)}
-            t = st.alloc(Obj('Table', f))
-            return [Result(self.record(st, 'Table', args, t), t)]
+            t = self.make_object(eng, st, 'newtable', 'Table')
+            init = [m for m in self.module_classes['Table'].body if isinstance(m, ast.FunctionDef) and m.name == '__init__'][0]
+            fv = VFn('def', rel=self.rel, qualname='Table.__init__', node=init, self_val=t)
+            out = []
+            for r in eng.call_def(st, fv, list(args), dict(kwargs), node):
+                if r.exc is not None:
+                    out.append(r)
+                else:
+                    out.append(Result(self.record(r.st, 'Table', args, t), t))
+            return out
         if cls.name in ('UnknownAxisError', 'UnknownIDError', 'TableException', 'DisjointIDError'):
             return [Result(st, VExc(cls, list(args)))]
         return super().construct(eng, st, cls, args, kwargs, node)
@@ -598,8 +590,11 @@ contract(F, 'Table.copy', tier='A', props=['C07', 'C06'],
              "implies(not self._data.haszeros, not result._data.haszeros)",
              "result._sample_ids is not self._sample_ids and same_seq(result._sample_ids, self._sample_ids)",
              "result._observation_ids is not self._observation_ids and same_seq(result._observation_ids, self._observation_ids)",
-             "same_seq(result._sample_metadata, self._sample_metadata)",
-             "same_seq(result._observation_metadata, self._observation_metadata)"],
+             # metadata entry by entry - or absent, when no entry holds anything (the constructor's rule)
+             "isnone(result._sample_metadata) or same_seq(result._sample_metadata, self._sample_metadata)",
+             "isnone(result._observation_metadata) or same_seq(result._observation_metadata, self._observation_metadata)",
+             "implies(isnone(self._sample_metadata), isnone(result._sample_metadata))",
+             "implies(isnone(self._observation_metadata), isnone(result._observation_metadata))"],
     modifies=[])
 
 
@@ -658,13 +653,25 @@ contract(F, 'Table._index_ids', inline_at_calls=True, tier='A', props=['C05'],
 
 # in place: the matrix, and ids / metadata / both lookups of the filtered axis (the other lookup is replaced by a copy)
 TMOD = [("inplace", 'self._data'), ("inplace", 'self._data.*'),
-        ("inplace and axis == 'sample'", 'self._sample_ids'), ("inplace and axis == 'sample'", 'self._sample_metadata'),
+        ("inplace and axis == 'sample'", 'self._sample_ids'), ("inplace", 'self._sample_metadata'),
         ("inplace and axis == 'observation'", 'self._observation_ids'),
-        ("inplace and axis == 'observation'", 'self._observation_metadata'),
+        ("inplace", 'self._observation_metadata'),
         ("inplace", 'self._sample_index'), ("inplace", 'self._obs_index')]
 OAX = AX.replace("axis ==", "old(axis) ==")
 WF_T = ["self._data.fmt == 'csr' or self._data.fmt == 'csc'",
         "len(self._sample_ids) == self._data.shape[1] and len(self._observation_ids) == self._data.shape[0]"]
+
+ASSUMED['Table._cast_metadata'] = (
+    'Table._cast_metadata replaces each metadata tuple by a tuple of defaultdicts with the same items (equal entry by '
+    'entry), or by None when no entry holds anything; it touches nothing else (its body - nested closures over '
+    'collections.defaultdict - is outside the verified subset; the bounded tier evaluates it)')
+contract(F, 'Table._cast_metadata', tier='A', props=[], kind='assumed',
+    types={'self': 'Obj:Table'},
+    ensures=["isnone(self._sample_metadata) or same_seq(self._sample_metadata, old(self._sample_metadata))",
+             "isnone(self._observation_metadata) or same_seq(self._observation_metadata, old(self._observation_metadata))",
+             "implies(isnone(old(self._sample_metadata)), isnone(self._sample_metadata))",
+             "implies(isnone(old(self._observation_metadata)), isnone(self._observation_metadata))"],
+    modifies=['self._sample_metadata', 'self._observation_metadata'], assumes=[ASSUMED['Table._cast_metadata']])
 
 contract(F, 'Table.filter', tier='A', props=['C08', 'C05', 'C07', 'C20'],
     types={'self': 'Obj:Table', 'ids_to_keep': 'Val', 'axis': 'Str', 'invert': 'Bool', 'inplace': 'Bool'},
@@ -678,6 +685,11 @@ contract(F, 'Table.filter', tier='A', props=['C08', 'C05', 'C07', 'C20'],
         "implies(not inplace, self._data is oldref(self._data) and samecells(self._data, old(self._data.cell)) "
         "        and self._sample_ids is oldref(self._sample_ids) and self._observation_ids is oldref(self._observation_ids)"
         "        and self._data.shape == old(self._data.shape))",
+        # the metadata of the other axis is re-cast, not changed: entry by entry what it was (or absent when nothing is in it)
+        "implies(old(axis) == 'sample', isnone(result._observation_metadata) "
+        "        or same_seq(result._observation_metadata, old(self._observation_metadata)))",
+        "implies(old(axis) == 'observation', isnone(result._sample_metadata) "
+        "        or same_seq(result._sample_metadata, old(self._sample_metadata)))",
         # both lookups describe the ids of the result
         "implies(old(axis) == 'sample', is_index_of(result._sample_index, result._sample_ids) "
         "        and same_dict(result._obs_index, old(self._obs_index)))",
@@ -695,11 +707,11 @@ contract(F, 'Table.filter', tier='A', props=['C08', 'C05', 'C07', 'C20'],
         # what the kernel returns is installed on that axis, the other axis keeps its ids
         "result._data is kret('_filter')[0]",
         "implies(old(axis) == 'sample', result._sample_ids is kret('_filter')[1] "
-        "        and same_seq(result._sample_metadata, kret('_filter')[2])"
+        "        and (isnone(result._sample_metadata) or same_seq(result._sample_metadata, kret('_filter')[2]))"
         "        and is_index_of(result._sample_index, result._sample_ids)"
         "        and same_dict(result._obs_index, old(self._obs_index)) and result._obs_index is not oldref(self._obs_index))",
         "implies(old(axis) == 'observation', result._observation_ids is kret('_filter')[1] "
-        "        and same_seq(result._observation_metadata, kret('_filter')[2])"
+        "        and (isnone(result._observation_metadata) or same_seq(result._observation_metadata, kret('_filter')[2]))"
         "        and is_index_of(result._obs_index, result._observation_ids)"
         "        and same_dict(result._sample_index, old(self._sample_index)) and result._sample_index is not oldref(self._sample_index))",
         # the result is validated
@@ -911,7 +923,11 @@ contract(F, 'Table.transpose', tier='A', props=['C06', 'C07'],
         "result is not self and result._data is not self._data",
         # ids and metadata change places, every value keeps its pair of ids
         "same_seq(result._observation_ids, self._sample_ids) and same_seq(result._sample_ids, self._observation_ids)",
-        "same_seq(result._observation_metadata, self._sample_metadata) and same_seq(result._sample_metadata, self._observation_metadata)",
+        # metadata: entry by entry, or absent when no entry holds anything (the constructor's rule)
+        "(isnone(result._observation_metadata) or same_seq(result._observation_metadata, self._sample_metadata)) "
+        "and (isnone(result._sample_metadata) or same_seq(result._sample_metadata, self._observation_metadata))",
+        "implies(isnone(self._sample_metadata), isnone(result._observation_metadata)) "
+        "and implies(isnone(self._observation_metadata), isnone(result._sample_metadata))",
         "result._data.shape[0] == self._data.shape[1] and result._data.shape[1] == self._data.shape[0]",
         "all(cell(result._data, j, i) == cell(self._data, i, j) for i in range(self._data.shape[0]) for j in range(self._data.shape[1]))",
         "samecells(self._data, old(self._data.cell))",
@@ -930,9 +946,9 @@ contract(F, 'Table.sort_order', tier='A', props=['C06', 'C07'],
         "result is not self and result._data is not self._data and samecells(self._data, old(self._data.cell))",
         # the ids of the axis are exactly the requested order; the other axis is untouched
         "implies(axis == 'sample', same_seq(result._sample_ids, order) and same_seq(result._observation_ids, self._observation_ids)"
-        "        and same_seq(result._observation_metadata, self._observation_metadata))",
+        "        and (isnone(result._observation_metadata) or same_seq(result._observation_metadata, self._observation_metadata)))",
         "implies(axis == 'observation', same_seq(result._observation_ids, order) and same_seq(result._sample_ids, self._sample_ids)"
-        "        and same_seq(result._sample_metadata, self._sample_metadata))",
+        "        and (isnone(result._sample_metadata) or same_seq(result._sample_metadata, self._sample_metadata)))",
         # every value and every metadata entry travels with its id
         "implies(axis == 'sample', result._data.shape[0] == self._data.shape[0] and result._data.shape[1] == len(order) and "
         "        all(cell(result._data, i, k) == cell(self._data, i, self._sample_index[order[k]]) "
@@ -940,11 +956,12 @@ contract(F, 'Table.sort_order', tier='A', props=['C06', 'C07'],
         "implies(axis == 'observation', result._data.shape[1] == self._data.shape[1] and result._data.shape[0] == len(order) and "
         "        all(cell(result._data, k, j) == cell(self._data, self._obs_index[order[k]], j) "
         "            for k in range(len(order)) for j in range(self._data.shape[1])))",
-        "implies(axis == 'sample' and not isnone(self._sample_metadata), "
+        # metadata present in the result travels with its id (it is absent when no entry holds anything)
+        "implies(axis == 'sample' and not isnone(result._sample_metadata), not isnone(self._sample_metadata) and "
         "        all(result._sample_metadata[k] == self._sample_metadata[self._sample_index[order[k]]] for k in range(len(order))))",
-        "implies(axis == 'observation' and not isnone(self._observation_metadata), "
+        "implies(axis == 'observation' and not isnone(result._observation_metadata), not isnone(self._observation_metadata) and "
         "        all(result._observation_metadata[k] == self._observation_metadata[self._obs_index[order[k]]] for k in range(len(order))))",
-        "implies(axis == 'sample', isnone(result._sample_metadata) == isnone(self._sample_metadata))",
+        "implies(axis == 'sample' and isnone(self._sample_metadata), isnone(result._sample_metadata))",
         "all(order[k] in %s for k in range(len(order)))" % IDX,
     ],
     raises={'UnknownAxisError': ["not (%s)" % AX],
@@ -982,18 +999,18 @@ contract(F, 'Table.sort', tier='A', props=['C06', 'C07'],
         "implies(axis == 'observation', same_seq(callarg(sort_f, 0, 0), self._observation_ids))",
         "result is not self and result._data is not self._data and samecells(self._data, old(self._data.cell))",
         "implies(axis == 'sample', same_seq(result._sample_ids, %s) and same_seq(result._observation_ids, self._observation_ids)"
-        "        and same_seq(result._observation_metadata, self._observation_metadata))" % _ORD,
+        "        and (isnone(result._observation_metadata) or same_seq(result._observation_metadata, self._observation_metadata)))" % _ORD,
         "implies(axis == 'observation', same_seq(result._observation_ids, %s) and same_seq(result._sample_ids, self._sample_ids)"
-        "        and same_seq(result._sample_metadata, self._sample_metadata))" % _ORD,
+        "        and (isnone(result._sample_metadata) or same_seq(result._sample_metadata, self._sample_metadata)))" % _ORD,
         "implies(axis == 'sample', result._data.shape[0] == self._data.shape[0] and result._data.shape[1] == len(%s) and "
         "        all(cell(result._data, i, k) == cell(self._data, i, self._sample_index[%s[k]]) "
         "            for i in range(self._data.shape[0]) for k in range(len(%s))))" % (_ORD, _ORD, _ORD),
         "implies(axis == 'observation', result._data.shape[1] == self._data.shape[1] and result._data.shape[0] == len(%s) and "
         "        all(cell(result._data, k, j) == cell(self._data, self._obs_index[%s[k]], j) "
         "            for k in range(len(%s)) for j in range(self._data.shape[1])))" % (_ORD, _ORD, _ORD),
-        "implies(axis == 'sample' and not isnone(self._sample_metadata), "
+        "implies(axis == 'sample' and not isnone(result._sample_metadata), not isnone(self._sample_metadata) and "
         "        all(result._sample_metadata[k] == self._sample_metadata[self._sample_index[%s[k]]] for k in range(len(%s))))" % (_ORD, _ORD),
-        "implies(axis == 'observation' and not isnone(self._observation_metadata), "
+        "implies(axis == 'observation' and not isnone(result._observation_metadata), not isnone(self._observation_metadata) and "
         "        all(result._observation_metadata[k] == self._observation_metadata[self._obs_index[%s[k]]] for k in range(len(%s))))" % (_ORD, _ORD),
     ],
     raises={'UnknownAxisError': ["not (%s)" % AX], 'UnknownIDError': [AX], '*': []},
@@ -1293,8 +1310,8 @@ contract(F, 'Table.remove_empty', tier='A', props=['C08', 'C07'],
       + ["implies(axis == 'observation', %s)" % t for t in _re_first("'observation'")],
     raises={'UnknownAxisError': ["not (%s or axis == 'whole')" % AX], 'KeyError': []},
     modifies=[("inplace", 'self._data'), ("inplace", 'self._data.*'),
-              ("inplace and axis != 'observation'", 'self._sample_ids'), ("inplace and axis != 'observation'", 'self._sample_metadata'),
-              ("inplace and axis != 'sample'", 'self._observation_ids'), ("inplace and axis != 'sample'", 'self._observation_metadata'),
+              ("inplace and axis != 'observation'", 'self._sample_ids'), ("inplace", 'self._sample_metadata'),
+              ("inplace and axis != 'sample'", 'self._observation_ids'), ("inplace", 'self._observation_metadata'),
               ("inplace", 'self._sample_index'), ("inplace", 'self._obs_index')])
 
 
@@ -1317,7 +1334,10 @@ contract(F, 'Table.update_ids', tier='A', props=['C06', 'C07'],
         # nothing else moves: the other axis, the metadata of both axes and every cell
         "implies(axis == 'sample', same_seq(result._observation_ids, old(self._observation_ids)))",
         "implies(axis == 'observation', same_seq(result._sample_ids, old(self._sample_ids)))",
-        "same_seq(result._sample_metadata, old(self._sample_metadata)) and same_seq(result._observation_metadata, old(self._observation_metadata))",
+        "(isnone(result._sample_metadata) or same_seq(result._sample_metadata, old(self._sample_metadata))) "
+        "and (isnone(result._observation_metadata) or same_seq(result._observation_metadata, old(self._observation_metadata)))",
+        "implies(inplace, same_seq(result._sample_metadata, old(self._sample_metadata)) "
+        "        and same_seq(result._observation_metadata, old(self._observation_metadata)))",
         "samecells(result._data, old(self._data.cell)) and result._data.shape == old(self._data.shape)",
         "implies(inplace, result._data is oldref(self._data))",
         "implies(not inplace, %s)" % _UNCHANGED,
@@ -1341,3 +1361,57 @@ contract(F, 'Table.update_ids', tier='A', props=['C06', 'C07'],
         "all(updated_ids[k] == (id_map[%s[k]] if %s[k] in id_map else %s[k]) for k in range(0, __i0))" % ((_OLD_IDS,) * 3),
         "implies(strict, all(%s[k] in id_map for k in range(0, __i0)))" % _OLD_IDS,
     ])})
+
+
+# ---- the constructor, scipy-matrix input (what every table-producing method of this file calls) ---------------------
+contract(F, 'Table.__init__', tier='A', props=['C17', 'C05'],
+    types={'self': 'Obj:Table', 'data': 'SP', 'observation_ids': 'Arr[Str]', 'sample_ids': 'Arr[Str]',
+           'observation_metadata': 'Opt[Tup[Val]]', 'sample_metadata': 'Opt[Tup[Val]]', 'table_id': 'Val', 'type': 'Val',
+           'create_date': 'Val', 'generated_by': 'Val', 'observation_group_metadata': 'Val', 'sample_group_metadata': 'Val',
+           # no caller in the package hands lookups in: verified for the default (None)
+           'validate': 'Bool', 'observation_index': 'None', 'sample_index': 'None',
+           'kwargs': 'Dict[Str,Val]'},
+    requires=[],
+    ensures=[
+        # the matrix is a fresh float csr matrix with the cells of the input
+        "self._data is not data and self._data.fmt == 'csr' and samecells(self._data, data) and self._data.shape == data.shape",
+        "implies(not data.haszeros, not self._data.haszeros)",
+        "samecells(data, old(data.cell))",
+        # ids as given, in the given order
+        "same_seq(self._sample_ids, sample_ids) and same_seq(self._observation_ids, observation_ids)",
+        # metadata: entry by entry what was given, or absent
+        "isnone(self._sample_metadata) or same_seq(self._sample_metadata, sample_metadata)",
+        "isnone(self._observation_metadata) or same_seq(self._observation_metadata, observation_metadata)",
+        "implies(isnone(sample_metadata), isnone(self._sample_metadata))",
+        "implies(isnone(observation_metadata), isnone(self._observation_metadata))",
+        # lookups: rebuilt from the ids unless handed in
+        "is_index_of(self._sample_index, self._sample_ids) and is_index_of(self._obs_index, self._observation_ids)",
+        "self.type == type and self.table_id == table_id",
+    ],
+    internal=["implies(validate, kcount('errcheck') == 1 and karg('errcheck', 0) is self)",
+              "implies(not validate, kcount('errcheck') == 0)"],
+    # ids as given: numpy.asarray of an array is that array
+    installs={'self._sample_ids': 'sample_ids', 'self._observation_ids': 'observation_ids'},
+    raises={},
+    modifies=['self.*'])
+
+
+def _tw_isinstance_dict(self, eng, st, v, cls, node):
+    if v.kind == 'val' and cls.kind == 'fn' and cls.fk == 'builtin' and cls.name == 'dict':
+        # whether a metadata entry is a dict is a property of the (opaque) value
+        return [Result(st, VBool(z3.Function('val_is_dict', self.Val, B)(v.term)))]
+    return _prev_isinstance_dict(self, eng, st, v, cls, node)
+
+
+_prev_isinstance_dict = TableWorld.isinstance_hook
+TableWorld.isinstance_hook = _tw_isinstance_dict
+
+
+def _tw_global_dict(self, eng, st, n):
+    if n in ('dict',):
+        return VFn('builtin', name=n)
+    return _prev_global_dict(self, eng, st, n)
+
+
+_prev_global_dict = TableWorld.global_name
+TableWorld.global_name = _tw_global_dict
